@@ -844,4 +844,137 @@ theorem refTail_mono (lookup : Int → RefLookup) (s2 : IStream) (err0 : Sev) (h
     · exact greater_warning_err _
 
 
+/-! ### BINARY -/
+/-- `scanWord` on a good stream whose last consumed character is the current one: the word is the longest run of
+    `p`-characters starting at the current character (`q`, the closing delimiter, is not a `p`-character) -/
+theorem scanWord_spec (p : Byte → Bool) (q : Byte) (c1 : Byte) (l t1 : List Byte) (sk : Bool) :
+    ∃ w rest, c1 :: t1 = w ++ rest ∧ w.all p = true ∧
+      ((w = [] ∧ p c1 = false ∧ ∃ s6, scanWord p q c1 { left := c1 :: l, right := t1, eof := false, fail := false, bad := false, skipws := sk } = ([], c1, s6)) ∨
+       (w ≠ [] ∧ rest = [] ∧ ∃ c3 s6, p c3 = true ∧
+          scanWord p q c1 { left := c1 :: l, right := t1, eof := false, fail := false, bad := false, skipws := sk } = (w, c3, s6)) ∨
+       (w ≠ [] ∧ ∃ u, rest = q :: u ∧ p q = false ∧
+          scanWord p q c1 { left := c1 :: l, right := t1, eof := false, fail := false, bad := false, skipws := sk } =
+            (w, q, { left := q :: (w.reverse ++ l), right := u, eof := false, fail := false, bad := false, skipws := sk })) ∨
+       (w ≠ [] ∧ ∃ x u, rest = x :: u ∧ x ≠ q ∧ p x = false ∧
+          scanWord p q c1 { left := c1 :: l, right := t1, eof := false, fail := false, bad := false, skipws := sk } =
+            (w, x, { left := w.reverse ++ l, right := x :: u, eof := false, fail := false, bad := false, skipws := sk }))) := by
+  by_cases hp : p c1 = true
+  · obtain ⟨w, rest, h1, h2, h3⟩ := wordLoop_go p [] c1 (c1 :: l) t1 hp
+    refine ⟨c1 :: w, rest, by simp [h1], by simp [hp, h2], Or.inr ?_⟩
+    rcases h3 with ⟨hr, c', hc', hs⟩ | ⟨x, u, hr, hx, hs⟩
+    · refine Or.inl ⟨by simp, hr, c',
+        { left := w.reverse ++ c1 :: l, right := [], eof := true, fail := true, bad := false, skipws := sk }, hc', ?_⟩
+      simp [scanWord, runWord, IStream.good, hs]
+    · by_cases hxq : x = q
+      · subst hxq
+        refine Or.inr (Or.inl ⟨by simp, u, hr, hx, ?_⟩)
+        simp [scanWord, runWord, IStream.good, hs]
+      · refine Or.inr (Or.inr ⟨by simp, x, u, hr, hxq, hx, ?_⟩)
+        simp [scanWord, runWord, IStream.good, hs, hxq, putback_good]
+  · have hp' : p c1 = false := by simpa using hp
+    refine ⟨[], c1 :: t1, rfl, rfl, Or.inl ⟨rfl, hp', ?_⟩⟩
+    simp only [scanWord, runWord, IStream.good]
+    simp [wordLoop_stop p [] c1 _ t1 hp']
+
+theorem xdigit_not_quote : isXDigit 34 = false := by decide
+
+/-- `ReadBinary` (delimiters required, empty content reported) flags no error only for `"` hex-digits `"` -/
+theorem readBinary_noerr (cfg : LexCfg) (hcfg : cfg.binaryRejectsEmpty = true) (l : List Byte) (c : Byte) (t : List Byte) (sk : Bool)
+    (hc : isSpace c = false)
+    (hne : NoErr (readBinary cfg true { left := l, right := c :: t, eof := false, fail := false, bad := false, skipws := sk } .null).2.2) :
+    ∃ hex rest, c :: t = 34 :: (hex ++ 34 :: rest) ∧ hex ≠ [] ∧ hex.all isXDigit = true ∧
+      readBinary cfg true { left := l, right := c :: t, eof := false, fail := false, bad := false, skipws := sk } .null =
+        (hex, { left := 34 :: (hex.reverse ++ 34 :: l), right := rest, eof := false, fail := false, bad := false, skipws := sk }, .null) := by
+  simp only [readBinary, ws_good0 _ _ _ _ hc, IStream.good, Bool.not_false, Bool.and_self, Bool.not_true, Bool.false_eq_true, if_false,
+    getInto_good] at hne ⊢
+  by_cases h34 : c = 34
+  · subst h34
+    simp only [beq_self_eq_true, Bool.true_or, if_true] at hne ⊢
+    cases t with
+    | nil =>
+      exfalso
+      simp only [getInto_end, scanWord, runWord, IStream.good, Bool.not_true, Bool.false_and, Bool.and_false, Bool.false_eq_true, if_false,
+        List.reverse_nil, beq_self_eq_true, if_true, Bool.not_false, hcfg, List.isEmpty_nil, Bool.and_self] at hne
+      exact warnIf_true_err _ hne
+    | cons c1 t1 =>
+      simp only [getInto_good] at hne ⊢
+      obtain ⟨w, rest, h1, h2, h3⟩ := scanWord_spec isXDigit 34 c1 (34 :: l) t1 sk
+      rcases h3 with ⟨hw, _, s6, he⟩ | ⟨hw, hr, c3, s6, hc3, he⟩ | ⟨hw, u, hr, _, he⟩ | ⟨hw, x, u, hr, hxq, hx, he⟩
+      · exfalso
+        simp only [he, hcfg, List.isEmpty_nil, Bool.and_self] at hne
+        exact warnIf_true_err _ hne
+      · exfalso
+        have hc3' : (c3 == 34) = false := by
+          cases hq : (c3 == 34)
+          · rfl
+          · have : c3 = 34 := by simpa using hq
+            subst this; cases hc3
+        simp only [he, hc3', Bool.false_eq_true, if_false, Bool.not_false] at hne
+        have hwe : w.isEmpty = false := by cases w <;> simp_all
+        simp only [hwe, Bool.and_false] at hne
+        simp only [null_warnIf_true, Sev.warnIf, Bool.false_eq_true, if_false] at hne
+        exact not_quiet_warning (NoErr.quiet hne)
+      · have hwe : w.isEmpty = false := by cases w <;> simp_all
+        simp only [he, beq_self_eq_true, if_true, Bool.not_false, Bool.not_true, hwe, Bool.and_false, null_warnIf_false] at hne ⊢
+        exact ⟨w, u, by rw [h1, hr], hw, h2, rfl⟩
+      · exfalso
+        have hxq' : (x == 34) = false := by simpa using hxq
+        have hwe : w.isEmpty = false := by cases w <;> simp_all
+        simp only [he, hxq', Bool.false_eq_true, if_false, Bool.not_false, hwe, Bool.and_false] at hne
+        simp only [null_warnIf_true, Sev.warnIf, Bool.false_eq_true, if_false] at hne
+        exact not_quiet_warning (NoErr.quiet hne)
+  · exfalso
+    have h34' : (c == 34) = false := by simpa using h34
+    simp only [h34', Bool.false_or] at hne
+    by_cases hx : isXDigit c = true
+    · simp only [hx, if_true, Bool.false_eq_true, if_false] at hne
+      generalize scanWord isXDigit 34 c { left := c :: l, right := t, skipws := sk } = q at hne
+      obtain ⟨str, c2, s5⟩ := q
+      simp only at hne
+      have : (!(if (c2 == 34) = true then !true else false)) = true := by
+        cases (c2 == 34) <;> rfl
+      rw [this, null_warnIf_true, warning_warnIf] at hne
+      exact not_quiet_warning (NoErr.quiet hne)
+    · have hx' : isXDigit c = false := by simpa using hx
+      simp only [hx', Bool.false_eq_true, if_false, null_greater_warning] at hne
+      exact not_quiet_warning (NoErr.quiet hne)
+
+
+/-! ### STRING -/
+/-- the quote-parity automaton of `GetLiteralStr`: what was appended is a prefix of the input; when the loop stops before the
+    end, the string is closed (`esc = false`) and the next character is not an apostrophe; and whenever the string is
+    closed the last character appended is an apostrophe -/
+theorem litLoop_spec (srev : List Byte) (esc : Bool) (r : List Byte) (hinv : esc = false → srev.head? = some 39) :
+    ∃ m, r = m ++ (litLoop srev esc r).2.1 ∧ (litLoop srev esc r).1 = m.reverse ++ srev ∧
+      ((litLoop srev esc r).2.2.1 = false → (litLoop srev esc r).1.head? = some 39) ∧
+      ((litLoop srev esc r).2.2.2 = true → (litLoop srev esc r).2.1 = []) ∧
+      ((litLoop srev esc r).2.2.2 = false → (litLoop srev esc r).2.2.1 = false) ∧
+      (m = [] → (litLoop srev esc r).2.2.1 = esc) := by
+  induction r generalizing srev esc with
+  | nil => exact ⟨[], by simp [litLoop], by simp [litLoop], by simpa [litLoop] using hinv, by simp [litLoop], by simp [litLoop], by simp [litLoop]⟩
+  | cons c t ih =>
+    by_cases hq : c = 39
+    · subst hq
+      have hinv' : (if endsWithSEsc srev then esc else !esc) = false → (39 :: srev).head? = some 39 := fun _ => rfl
+      obtain ⟨m, h1, h2, h3, h4, h5, _⟩ := ih (39 :: srev) (if endsWithSEsc srev then esc else !esc) hinv'
+      refine ⟨39 :: m, ?_, ?_, ?_, ?_, ?_, by simp⟩
+      · simp only [litLoop, beq_self_eq_true, if_true, List.cons_append]; rw [← h1]
+      · simp only [litLoop, beq_self_eq_true, if_true]; rw [h2]; simp
+      · simpa [litLoop] using h3
+      · simpa [litLoop] using h4
+      · simpa [litLoop] using h5
+    · have hq' : (c == 39) = false := by simpa using hq
+      cases esc with
+      | false =>
+        exact ⟨[], by simp [litLoop, hq'], by simp [litLoop, hq'], by simpa [litLoop, hq'] using hinv, by simp [litLoop, hq'], by simp [litLoop, hq'], by simp [litLoop, hq']⟩
+      | true =>
+        obtain ⟨m, h1, h2, h3, h4, h5, _⟩ := ih (c :: srev) true (by simp)
+        refine ⟨c :: m, ?_, ?_, ?_, ?_, ?_, by simp⟩
+        · simp only [litLoop, hq', Bool.false_eq_true, if_false, Bool.not_true, List.cons_append]; rw [← h1]
+        · simp only [litLoop, hq', Bool.false_eq_true, if_false, Bool.not_true]; rw [h2]; simp
+        · simpa [litLoop, hq'] using h3
+        · simpa [litLoop, hq'] using h4
+        · simpa [litLoop, hq'] using h5
+
+
 end StepModel.P21.Lemmas
